@@ -325,7 +325,18 @@ def run(pm, ctx):
               'self.encode_sub(validator, value)', 'encode() enters through encode_sub',
               base_encode.loc, msg='encode() bypasses encode_sub',
               key='C13-R3|%s' % base_encode.qualname)
-    # the override
+    # the override: the class that encodes for output must itself override the dispatch entry
+    # (the class still being there and the method gone is a removed hook, not a moved anchor)
+    if pm.has_func(ENC + '.encode') or (ENC in pm.classes):
+        if not pm.has_func(ENC + '.encode_sub'):
+            enc_cls = pm.cls(ENC)
+            ctx.check('C13-R3', False, 'the output serializer overrides encode_sub with the '
+                                       'redaction test', enc_cls.module.relpath,
+                      msg='%s no longer overrides encode_sub: every recursive encoding (list items, '
+                          'map values, nested members) goes through the base dispatch without the '
+                          'redaction test' % enc_cls.name,
+                      key='C13-R3|%s.encode_sub|first' % ENC)
+            return
     ov = pm.func(ENC + '.encode_sub')
     # the first statement that does anything: docstrings and assignments of constants to
     # locals are skipped
